@@ -50,7 +50,7 @@ def setSpace (g : Ghost) (l : Level) (s : SpaceGhost) : Ghost :=
 def implField (impl : String) (key : String) : Option String :=
   (words impl).findSome? fun w => if w.startsWith key then some (w.drop key.length).toString else none
 
-def modelLowestStart (h : Handler) : Level → Option PN
+def modelLowestStart (h : Handler) : Level → Option Int
   | .initial => h.initial.bind (·.hist.ranges.getLast?.map (·.1))
   | .handshake => h.handshake.bind (·.hist.ranges.getLast?.map (·.1))
   | _ => h.app.t.hist.ranges.getLast?.map (·.1)
@@ -131,7 +131,7 @@ def step (s : St) (op impl : String) : St × StepOut :=
       if implHead == "1" && !(sp.R.contains pn || pn < floor) then
         fails := fails ++ [("dup_sound", "-", s!"pn={pn} never received")]
       if implHead == "0" && (pn < floor || (sp.R.contains pn &&
-            (!s.trimmed || (!s.diverged && (modelLowestStart s.h lvl).any (· ≤ pn))))) then
+            !s.trimmed)) then
         fails := fails ++ [("dup_complete", "-", s!"pn={pn} was received and is within the tracked history")]
       return fin s model [s!"dup:{model}"] fails
   | ["ack", l, now, oiq] =>
